@@ -232,6 +232,25 @@ func runOne(h hostile) (r childResult, stuck bool) {
 	if r.Class2, r.Err2, ok = call("second RunContext", bg); !ok {
 		return r, r.Hang != ""
 	}
+	// a context that is already cancelled: the call must still return (with the context's error or the
+	// run's own result), whatever the program does
+	{
+		var err error
+		esc, hung := guarded(func() {
+			ctx, cancel := context.WithCancel(context.Background())
+			cancel()
+			err = c.RunContext(ctx)
+		})
+		_ = err
+		if hung {
+			r.Hang = "RunContext with an already cancelled context"
+			return r, true
+		}
+		if esc != "" {
+			r.Escaped = "RunContext with an already cancelled context: " + esc
+			return r, false
+		}
+	}
 	if h.Det && r.Misbehave == "" && r.Class1 != "ctx" && r.Class2 != "ctx" && (r.Class1 != r.Class2 || r.Err1 != r.Err2) {
 		r.Misbehave = fmt.Sprintf("second RunContext returned %q, first %q", r.Err2, r.Err1)
 	}
